@@ -184,6 +184,7 @@ func newConv(run *evid.Run, rng *rand.Rand, c cell) *conv {
 	for _, rh := range realms {
 		rl := &authsim.Realm{Host: rh, Lifetimes: []int{-1, 60, 300}}
 		rl.RequireCreds = rng.IntN(5) == 0
+		rl.Stable = rng.IntN(3) == 0 // hands out the same token string again for the same request
 		if rng.IntN(3) == 0 {
 			rl.RefreshProb = 0.5
 		}
@@ -396,7 +397,12 @@ func (cv *conv) judge(res *authsim.CallResult, mode string) {
 		if t := cv.w.Tokens[last.Bearer]; last.Status == 401 && last.Bearer != "" && t != nil && t.Call == res.ID {
 			sub := "retry"
 			if n == 1 {
+				// a single attempt: either the token was fetched before it (proactively, with a refresh
+				// token) or it was fetched in answer to this attempt's 401 and then not used for a retry
 				sub = "first-attempt-with-proactive-token"
+				if t.Seq > last.Seq {
+					sub = "token-acquired-after-the-401-and-no-retry"
+				}
 			}
 			run.Count("fresh_token_answered_401/"+sub, 1)
 			if res.Status == 403 && isDenied(res.Body) {
